@@ -76,6 +76,10 @@ class RaisedError(ExtractionError):
     """The extracted code raises for the given constants (a guard fired)."""
 
 
+class BareReturn(ExtractionError):
+    """A value-less ``return`` was reached: the call has no value (only a discarded call may end this way)."""
+
+
 # ---------------------------------------------------------------------------- values
 
 
@@ -552,6 +556,12 @@ class TermEval:
                 if rec is not None and a in dict(rec[1]):
                     base = dict(rec[1])[a]
                     continue
+                if rec is not None:
+                    # a method of the record class (`masses.sum_of_squares`): bound to the record
+                    m = self.tree.lookup_method(rec[0], a)
+                    if m is not None and not any(unparse(d).split(".")[-1] in {"property", "cached_property", "classmethod"} for d in m.node.decorator_list):
+                        base = Bound(m.qual, None if any(unparse(d) == "staticmethod" for d in m.node.decorator_list) else base)
+                        continue
                 atom = self.single_atom(base)
                 if self.is_app(atom) and atom in self.apps and self.apps[atom].cls in self.classes:
                     # `b = self.evaluate(); b.b01`: a field of an instance of a repo expression class is the value
@@ -935,8 +945,7 @@ class TermEval:
                 args, kwargs = self._args(node, env, fn, depth)
                 return self._stdlib("builtins." + func.id, args, kwargs, env, fn, depth, node)
             elif fval is not None:
-                args = [self.ev(a, env, fn, depth) for a in node.args]
-                kwargs = {k.arg: self.ev(k.value, env, fn, depth) for k in node.keywords if k.arg}
+                args, kwargs = self._args(node, env, fn, depth)  # `*seq` / `**{...}` expanded: the callee receives the same arguments
                 return self.app("call:" + repr(vkey(fval)), args, kwargs)
         if callee is None and isinstance(func, ast.Name) and func.id in {"int", "float"} and func.id not in env and len(node.args) == 1 and not node.keywords:
             return self.ev(node.args[0], env, fn, depth)  # the builtin conversion of a term: the term (as in `call`)
@@ -1827,8 +1836,8 @@ class TermEval:
                 if target is not None and _only_validates(target.node.body):
                     try:
                         self.ev(st.value, env, fn, depth)
-                    except NoReturn:
-                        pass
+                    except (NoReturn, BareReturn):
+                        pass  # the helper ended without raising
                     continue
             if isinstance(st, (ast.Import, ast.ImportFrom, ast.Pass)):
                 continue
@@ -1839,7 +1848,7 @@ class TermEval:
                 continue
             if isinstance(st, ast.Return):
                 if st.value is None:
-                    raise ExtractionError("bare return")
+                    raise BareReturn("bare return")
                 return self.ev(st.value, env, fn, depth)
             if isinstance(st, ast.Raise):
                 raise RaisedError(f"{fn.qual}: raises `{unparse(st.exc)[:60] if st.exc is not None else ''}`")
@@ -2205,8 +2214,25 @@ def _only_validates(body: list) -> bool:
     return True
 
 
+_TEXT_BUILTINS = {"str", "repr", "sorted", "list", "tuple", "set", "frozenset", "len", "map", "format", "min", "max", "type"}
+
+
 def _only_strings(st: ast.Assign) -> bool:
-    return isinstance(st.value, (ast.Constant, ast.JoinedStr))
+    """The value is a message text: a literal / f-string, or an expression that only formats values - every call in it is a
+    pure builtin (``sorted``, ``str``, ``map`` ...) or ``<text>.join / .format`` - so evaluating it has no effect."""
+    if isinstance(st.value, (ast.Constant, ast.JoinedStr)):
+        return True
+    calls = [n for n in ast.walk(st.value) if isinstance(n, ast.Call)]
+    if not calls or any(isinstance(n, (ast.NamedExpr, ast.Await, ast.Yield, ast.YieldFrom, ast.Lambda)) for n in ast.walk(st.value)):
+        return False
+    for c in calls:
+        if isinstance(c.func, ast.Name) and c.func.id in _TEXT_BUILTINS:
+            continue
+        if isinstance(c.func, ast.Attribute) and c.func.attr in {"join", "format"} and isinstance(c.func.value, ast.Constant) and isinstance(c.func.value.value, str):
+            continue
+        return False
+    outer = st.value
+    return isinstance(outer, ast.Call) and isinstance(outer.func, ast.Attribute) and outer.func.attr in {"join", "format"}
 
 
 def _attr_chain(node: ast.AST) -> str | None:
